@@ -404,6 +404,25 @@ class World:
         CTX.counters["cache_flip"] += 1
         return {"k": k, "of": len(b)}
 
+    def op_cache_hibit(self, field, nth=0):
+        """Bit rot aimed at a string value: the top bit of one character inside the nth value of
+        `field` is set, which makes the file invalid UTF-8 while every structural byte survives."""
+        b = self.cache_bytes()
+        if not b:
+            return {"noop": "no_cache"}
+        needle = ('"%s": "' % field).encode()
+        pos = -1
+        for _ in range(nth + 1):
+            pos = b.find(needle, pos + 1)
+            if pos < 0:
+                return {"noop": "field_missing"}
+        k = pos + len(needle) + 2
+        if k >= len(b) or b[k:k + 1] == b'"' or b[k - 1:k] == b'"' or b[k - 2:k - 1] == b'"':
+            return {"noop": "value_too_short"}
+        write_bytes(self.cache_file, b[:k] + bytes([b[k] | 0x80]) + b[k + 1:])
+        CTX.counters["cache_hibit_" + field] += 1
+        return {"k": k}
+
     def op_cache_replace(self, kind):
         from .faults import CACHE_REPLACEMENTS, CACHE_DERIVED
         if kind in ("marker_torn", "marker_garbage"):
